@@ -1063,11 +1063,22 @@ class Interp:
             if name in base.attrs:
                 return base.attrs[name]
             c = base.cls
+            if name == "__class__" and c is not None:
+                return c
+            if c is not None and name not in c.methods:
+                cv = self._class_const(c, name)
+                if cv is not None:
+                    return cv
             if c is not None and name in c.methods:
                 fn = c.methods[name]
                 self.src.funcs_consulted.add(f"{c.mod.rel}:{c.name}.{name}")
+                deco = {d.id for d in fn.decorator_list if isinstance(d, ast.Name)}
+                if "staticmethod" in deco:
+                    return FuncV(fn, c.mod, None, None, c, f"{c.name}.{name}")
+                if "classmethod" in deco:
+                    return FuncV(fn, c.mod, None, c, c, f"{c.name}.{name}")
                 f = FuncV(fn, c.mod, None, base, c, f"{c.name}.{name}")
-                if any(isinstance(d, ast.Name) and d.id == "property" for d in fn.decorator_list):
+                if "property" in deco:
                     return self._invoke(f, [], {}, node or fn)
                 return f
             if self.hook is not None:
@@ -1085,9 +1096,44 @@ class Interp:
             return F.fn("attr:" + name, base)
         if isinstance(base, ClassV):
             if name in base.methods:
-                return FuncV(base.methods[name], base.mod, None, None, base, f"{base.name}.{name}")
+                fn = base.methods[name]
+                self.src.funcs_consulted.add(f"{base.mod.rel}:{base.name}.{name}")
+                bound = base if any(isinstance(d, ast.Name) and d.id == "classmethod" for d in fn.decorator_list) else None
+                return FuncV(fn, base.mod, None, bound, base, f"{base.name}.{name}")
+            if name == "__name__":
+                return base.name
+            cv = self._class_const(base, name)
+            if cv is not None:
+                return cv
             return Unknown(f"class attribute {name}")
         return Unknown(f"attribute {name} of {type(base).__name__}")
+
+    def _class_const(self, c, name):
+        """value of a name bound once at class level (a constant table of the class), else None"""
+        if name in c.consts:
+            return c.consts[name]
+        found = [st for st in c.node.body if isinstance(st, (ast.Assign, ast.AnnAssign)) and getattr(st, "value", None) is not None
+                 and any(isinstance(x, ast.Name) and x.id == name for t in (st.targets if isinstance(st, ast.Assign) else [st.target]) for x in ast.walk(t))]
+        if len(found) != 1:
+            return None
+        st = found[0]
+        c.consts[name] = Unknown(f"recursive class constant {name}")
+        try:
+            val = self.ev(st.value, Frame(None, None, c.mod))
+        except Unsupported as e:
+            val = Unknown(str(e))
+        tmp = Frame(None, None, c.mod)
+        for t in (st.targets if isinstance(st, ast.Assign) else [st.target]):
+            self._bind_target(t, val, tmp, st)
+        c.consts.update(tmp.vars)
+        return c.consts.get(name)
+
+    def _e_NamedExpr(self, node, fr):
+        v = self.ev(node.value, fr)
+        if is_crash(v):
+            return v
+        self._bind_target(node.target, v, fr, node)
+        return v
 
     def _e_UnaryOp(self, node, fr):
         if isinstance(node.op, ast.Not):
@@ -1804,6 +1850,8 @@ class Interp:
             if is_const(pos[0]):
                 return str(py_number(pos[0]))
             return NotImplemented
+        if name == "type" and n == 1 and not kw and isinstance(pos[0], Obj) and pos[0].cls is not None:
+            return pos[0].cls
         if name == "getattr" and n in (2, 3):
             if not isinstance(pos[1], str):
                 return Unknown("getattr with a computed name")
@@ -2182,6 +2230,43 @@ class Interp:
             a, b = outs[0].get(k, Unknown(f"unbound under `{what}`")), outs[1].get(k, Unknown(f"unbound under `{what}`"))
             merged[k] = a if same_value(a, b) else Unknown(f"assigned differently under undecided test `{what}`")
         fr.vars = merged
+
+    def _s_Match(self, st, fr):
+        """`match` on literal / dotted-name patterns, `|` of those, a capture or wildcard, optional guard: the first case whose pattern
+        equals the subject is run; an undecided comparison is not lowered"""
+        subj = self.ev(st.subject, fr)
+        if is_crash(subj):
+            raise _CrashSig(subj)
+
+        def matches(pat):
+            if isinstance(pat, ast.MatchValue):
+                return self.compare(ast.Eq(), subj, self.ev(pat.value, fr))
+            if isinstance(pat, ast.MatchSingleton):
+                return self.compare(ast.Is(), subj, pat.value)
+            if isinstance(pat, ast.MatchOr):
+                und = False
+                for q in pat.patterns:
+                    r = matches(q)
+                    if r is True:
+                        return True
+                    if r is not False:
+                        und = True
+                return None if und else False
+            if isinstance(pat, ast.MatchAs) and pat.pattern is None:
+                if pat.name is not None:
+                    fr.vars[pat.name] = subj
+                return True
+            raise Unsupported(f"match pattern {type(pat).__name__} at line {st.lineno}")
+
+        for case in st.cases:
+            r = matches(case.pattern)
+            if r is True and case.guard is not None:
+                r = self.decide(case.guard, fr)
+            if r is True:
+                self.run(case.body, fr)
+                return
+            if r is not False:
+                raise Unsupported(f"undecided `case` at line {case.pattern.lineno}")
 
     def _s_With(self, st, fr):
         for it in st.items:
